@@ -46,6 +46,8 @@ import PS.Proofs.TtcfgNoRepair
 import PS.Proofs.TtcfgCleanFirst
 import PS.Proofs.TtcfgBuildExact
 import PS.Proofs.TtcfgTotal
+import PS.Proofs.TtcfgAtMostTerm
+import PS.Proofs.TtcfgAtMostDiverge
 namespace PS.T
 open PS PS.G
 
@@ -925,5 +927,137 @@ open Ex in
     returns a grammar with 2 programs -/
 example : sizeFuel small int 3 = 68 ∧ wfDsl small = true ∧ noUnknownDsl small int = true ∧
     onTable (sizeConstraint small int 3 2 true true 68) (fun G => programsR G 68 == some 2) = true := by decide +kernel
+
+/-! ### `at_most_k`: when the construction terminates -/
+
+/-- **`TTCFG.at_most_k`, total correctness under `uncountedRanked`** (decidable, with a ranking of
+    the types as certificate: every primitive that is NOT the counted one takes, at every slot, only
+    arguments of strictly smaller rank than the slot - the dependency graph of the types through the
+    uncounted primitives - partial applications included - is acyclic; `spendAll` is the case of the empty ranking,
+    `uncountedRanked_of_spendAll`).  With `fuel ≥ atMostFuel` the model of the constructor RETURNS a
+    grammar that reports its request, contains exactly the well-typed programs with at most `k`
+    occurrences of the primitive and no forbidden pattern, and `programs()` returns their number.
+    Full statement (false on the code, `finding_C13_F9`): the same whenever the language is finite. -/
+theorem C13_atmost_total_partial (dsl : Dsl) (hwf : wfDsl dsl = true) (request : Ty) (hU : noUnknownDsl dsl request = true)
+    (name : String) (k : Nat) (nG : Int) (hn : nG ≥ 2 ∨ nG < 0) (rkT : AList Ty Nat)
+    (hur : uncountedRanked dsl name rkT = true) (fuel : Nat) (hf : atMostFuel dsl request k rkT ≤ fuel) :
+    ∃ g : TTG Ctx Nat, atMostK dsl request name k nG true fuel = .ok g ∧ g.typeRequest = request ∧
+      (∀ t, PS.G.contains g.G t = AtMostOcc dsl request name k t) ∧
+      ∃ (n : Nat) (L : List Prog), programsR g.G fuel = some n ∧ L.Nodup ∧ n = L.length ∧
+        ∀ t, t ∈ L ↔ AtMostOcc dsl request name k t = true := by
+  obtain ⟨G0, G, h0, h1, h2⟩ := atMost_total dsl request hU nG name k rkT hur true fuel hf
+  have hg : atMostK dsl request name k nG true fuel = .ok ⟨G, request⟩ := by
+    unfold atMostK; rw [h0]; simp only; rw [h1]
+  refine ⟨⟨G, request⟩, hg, rfl, C13_atmost dsl hwf request hU name k nG hn fuel _ hg, ?_⟩
+  cases hp : programsR G fuel with
+  | none => rw [hp] at h2; cases h2
+  | some n =>
+    obtain ⟨L, l1, l2, l3⟩ := C13_count_atmost dsl hwf request hU name k nG hn fuel _ hg fuel n hp
+    exact ⟨n, L, rfl, l1, l2, l3⟩
+
+open Ex in
+/-- non-vacuity: arithmetic with `+` counted (at most 2): the empty ranking is a certificate, the
+    fuel bound is met and the constructor returns -/
+example : uncountedRanked small "+" [] = true ∧ atMostFuel small int 1 [] ≤ 200 ∧
+    onTable (atMostK small int "+" 1 2 true 200) (fun G => programsR G 200 == some 2) = true := by decide +kernel
+
+open Ex in
+/-- non-vacuity with a non-trivial ranking: f : a → b → c, g : a → d → c, h : x → a uncounted, `x0` counted -/
+example : uncountedRanked sib "x0" [(c, 2), (fn [b] c, 2), (fn [d] c, 2), (a, 1)] = true ∧ spendAll sib "x0" = false := by decide +kernel
+
+/-- **non-termination criterion for the worklist** (keyed by rule and pending stack): if
+    configurations with arbitrarily long pending stacks are reachable by its pushes, the loop never
+    ends - the model runs out of every fuel. -/
+theorem C13_saturation_diverges {S T : Type} [DecidableEq S] [DecidableEq T] (B : Builder S T) (prims : List Sym)
+    (request : Ty) (h : ∀ n : Nat, ∃ c, SReach B prims request c ∧ n ≤ c.2.length) :
+    ∀ fuel, saturationTable B prims request true fuel = none :=
+  not_terminates_of_unbounded B prims request h
+
+open Ex.Dv in
+/-- **finding C13-F9**: `TTCFG.at_most_k(dsl, a, "l", 1)` over g : a → a → a, l : a.  The
+    occurrence-bounded language is FINITE - it is the single program `l` (`(g l l)` already needs two
+    occurrences) - but the construction never returns: `g` can be derived again and again without
+    spending an occurrence, every time with a longer pending stack.  (On the real code: the call does
+    not return; before 6d9766e the worklist ended and `clean()` did not.) -/
+theorem finding_C13_F9 :
+    (∀ t, AtMostOcc dsl a "l" 1 t = true ↔ t = .node l []) ∧
+    (∀ rkT, uncountedRanked dsl "l" rkT = false) ∧
+    ∀ fuel, (match atMostK dsl a "l" 1 2 true fuel with
+      | .fuel => true
+      | _ => false) = true := by
+  refine ⟨dv_language, ?_, ?_⟩
+  · intro rkT
+    cases h : uncountedRanked dsl "l" rkT with
+    | false => rfl
+    | true =>
+      exfalso
+      unfold uncountedRanked at h
+      rw [List.all_eq_true] at h
+      have := h g (by decide)
+      have hs : symStr g ≠ "l" := by decide
+      simp only [hs, decide_false, Bool.false_or, List.all_eq_true] at this
+      have h2 := this ([a, a], a) (by decide)
+      simp at h2
+  · intro fuel
+    unfold atMostK
+    rw [dv_diverges fuel]
+
+/-! ### type request -/
+
+/-- **the product reports the type request of its factors** (`grammar.type_request =
+    self.type_request`, 26a6c4e; the factors' requests are asserted equal) -/
+theorem C13_type_request_product {S T U V : Type} [DecidableEq S] [DecidableEq T] [DecidableEq U] [DecidableEq V]
+    (g1 : TTG S T) (g2 : TTG U V) (hreq : g1.typeRequest = g2.typeRequest) (fuel : Nat) (g : TTG (S × U) (T × V))
+    (h : mulTTG g1 g2 fuel = .ok g) : g.typeRequest = g1.typeRequest ∧ g.typeRequest = g2.typeRequest := by
+  unfold mulTTG at h
+  split at h
+  · cases h; exact ⟨rfl, hreq⟩
+  · cases h
+  · cases h
+
+/-- … so the product of two size-bounded grammars compiled for `request` reports `request`,
+    and contains exactly the programs common to both -/
+theorem C13_product_total (dsl : Dsl) (request : Ty) (k1 k2 : Nat) (nG : Int) (fuel : Nat)
+    (g1 g2 : TTG Ctx (Nat × Nat)) (h1 : sizeConstraint dsl request k1 nG true true fuel = .ok g1)
+    (h2 : sizeConstraint dsl request k2 nG true true fuel = .ok g2)
+    (hag : ArgsAgree g1.G g2.G) (hU : noUnknownKey g1.G = true) (fuel' : Nat)
+    (g : TTG (Ctx × Ctx) ((Nat × Nat) × (Nat × Nat))) (h : mulTTG g1 g2 fuel' = .ok g) :
+    g.typeRequest = request ∧ ∀ t, PS.G.contains g.G t = (PS.G.contains g1.G t && PS.G.contains g2.G t) := by
+  have r1 := C13_type_request_size dsl request k1 nG true true fuel g1 h1
+  have r2 := C13_type_request_size dsl request k2 nG true true fuel g2 h2
+  have hty : g1.G.start.1 = g2.G.start.1 := by
+    have s1 : g1.G.start.1 = request.returns := by
+      unfold sizeConstraint at h1
+      cases h0 : saturationTable (sizeBuilder dsl nG k1 true) dsl.prims request true fuel with
+      | none => simp [h0] at h1
+      | some G0 =>
+        simp only [h0] at h1
+        cases hc : clean G0 fuel with
+        | ok G =>
+          simp only [hc, Res.ok.injEq] at h1; subst h1
+          rw [clean_start G0 G fuel hc, (saturationTable_spec _ dsl.prims request true fuel G0 h0).1]; rfl
+        | fuel => simp [hc] at h1
+        | keyError => simp [hc] at h1
+    have s2 : g2.G.start.1 = request.returns := by
+      unfold sizeConstraint at h2
+      cases h0 : saturationTable (sizeBuilder dsl nG k2 true) dsl.prims request true fuel with
+      | none => simp [h0] at h2
+      | some G0 =>
+        simp only [h0] at h2
+        cases hc : clean G0 fuel with
+        | ok G =>
+          simp only [hc, Res.ok.injEq] at h2; subst h2
+          rw [clean_start G0 G fuel hc, (saturationTable_spec _ dsl.prims request true fuel G0 h0).1]; rfl
+        | fuel => simp [hc] at h2
+        | keyError => simp [hc] at h2
+    rw [s1, s2]
+  unfold mulTTG at h
+  cases hc : cleanFixed (mulRaw g1.G g2.G) fuel' with
+  | ok G =>
+    simp only [hc, Res.ok.injEq] at h
+    subst h
+    exact ⟨r1, fun t => C13_product_cleanFixed g1.G g2.G hag hty hU fuel' G hc t⟩
+  | fuel => simp [hc] at h
+  | keyError => simp [hc] at h
 
 end PS.T
